@@ -45,6 +45,7 @@ impl<'a, 'b> GeneratorState<'a> {
         condition: &Expr,
         alternatives: &Expr,
         pos: usize,
+        high_byte: bool,
     ) -> Result<ExprType, Error> {
         match alternatives {
             Expr::BinOp { lhs, op, rhs } => {
@@ -61,14 +62,14 @@ impl<'a, 'b> GeneratorState<'a> {
                         let else_label = format!(".else{}", self.local_label_counter_if);
                         self.generate_condition(condition, pos, true, &else_label, false)?;
                         let saved_y = self.saved_y;
-                        let left = self.generate_expr(lhs, pos, false, false)?;
-                        let la = self.generate_assign(&ExprType::A(false), &left, pos, false)?;
+                        let left = self.generate_expr(lhs, pos, high_byte, false)?;
+                        let la = self.generate_assign(&ExprType::A(false), &left, pos, high_byte)?;
                         self.restore_y_saved_in_alternative(saved_y);
                         self.asm(JMP, &ExprType::Label(ifend_label.clone()), pos, false)?;
                         self.label(&else_label)?;
                         self.acc_in_use = false;
-                        let right = self.generate_expr(rhs, pos, false, false)?;
-                        let ra = self.generate_assign(&ExprType::A(false), &right, pos, false)?;
+                        let right = self.generate_expr(rhs, pos, high_byte, false)?;
+                        let ra = self.generate_assign(&ExprType::A(false), &right, pos, high_byte)?;
                         self.restore_y_saved_in_alternative(saved_y);
                         self.label(&ifend_label)?;
                         self.asm(STA, &ExprType::Tmp(false), pos, false)?;
@@ -89,22 +90,22 @@ impl<'a, 'b> GeneratorState<'a> {
                             self.generate_condition(condition, pos, true, &else_label, true)?;
                         if let Some(b) = cond {
                             if b {
-                                return Ok(self.generate_expr(rhs, pos, false, false)?);
+                                return Ok(self.generate_expr(rhs, pos, high_byte, false)?);
                             } else {
-                                return Ok(self.generate_expr(lhs, pos, false, false)?);
+                                return Ok(self.generate_expr(lhs, pos, high_byte, false)?);
                             }
                         } else {
                             let saved_y = self.saved_y;
-                            let left = self.generate_expr(lhs, pos, false, false)?;
+                            let left = self.generate_expr(lhs, pos, high_byte, false)?;
                             let la =
-                                self.generate_assign(&ExprType::A(false), &left, pos, false)?;
+                                self.generate_assign(&ExprType::A(false), &left, pos, high_byte)?;
                             self.restore_y_saved_in_alternative(saved_y);
                             self.asm(JMP, &ExprType::Label(ifend_label.clone()), pos, false)?;
                             self.label(&else_label)?;
                             self.acc_in_use = false;
-                            let right = self.generate_expr(rhs, pos, false, false)?;
+                            let right = self.generate_expr(rhs, pos, high_byte, false)?;
                             let ra =
-                                self.generate_assign(&ExprType::A(false), &right, pos, false)?;
+                                self.generate_assign(&ExprType::A(false), &right, pos, high_byte)?;
                             self.restore_y_saved_in_alternative(saved_y);
                             self.label(&ifend_label)?;
                             self.acc_in_use = true;
